@@ -4,7 +4,7 @@ import AbtemVerif.Gen.AxesClasses
 open AbtemVerif AbtemVerif.Proto AbtemVerif.Json
 
 /- value grammar (prefix, one space between tokens; text is %-escaped: `%25` = %, `%20` = space):
-     `N` | `b:T` | `b:F` | `i:<int>` | `f:<repr>` | `s:<text>` | `ni:<int>` | `nf:<repr>` | `nb:T|F` | `a` Val
+     `N` | `b:T` | `b:F` | `i:<int>` | `f:<repr>` | `s:<text>` | `ni:<int>` | `nf:<repr>` | `nb:T|F` | `a` Val | `al` Val (array-like object)
      | `t:<n>` Val^n | `l:<n>` Val^n | `d:<n>` ((`ks:<text>` | `ki:<int>`) Val)^n
    requests: `enc V` `dec V` `store V` `rt V` `norm V` `good V`          -> `ok V` | `err:<kind>` | `T`/`F`
              `fields <Class>`                                     -> `ok d:<n> …` (collected dataclass fields with defaults) | `none`
@@ -26,6 +26,9 @@ partial def pVal : P PyVal
     else if t = "a" then do
       let (v, ts) ← pVal ts
       pure (.ndarray v, ts)
+    else if t = "al" then do
+      let (v, ts) ← pVal ts
+      pure (.arraylike v, ts)
     else if t.startsWith "b:" then (parseBool? (after t 2)).map fun b => (.bool b, ts)
     else if t.startsWith "i:" then (parseInt? (after t 2)).map fun n => (.int n, ts)
     else if t.startsWith "f:" then some (.float (after t 2), ts)
@@ -76,6 +79,7 @@ partial def showVal : PyVal → String
   | .npfloat r => s!"nf:{r}"
   | .npbool b => s!"nb:{showBool b}"
   | .ndarray t => s!"a {showVal t}"
+  | .arraylike t => s!"al {showVal t}"
   | .tuple xs => " ".intercalate (s!"t:{xs.length}" :: xs.map showVal)
   | .list xs => " ".intercalate (s!"l:{xs.length}" :: xs.map showVal)
   | .dict kvs => " ".intercalate (s!"d:{kvs.length}" :: kvs.map fun (k, v) =>
